@@ -193,6 +193,33 @@ def o_calls(case):
         v = float(m.calcTheoreticalSER(sc))
         if not rel_close(v, float(ref['SER'][0]), 1e-5):
             return 'calls:scalar:%s:%s' % (kind, type(sc).__name__), repr(v)
+    # argument forms: the documented parameters given positionally or by keyword, scalar or array SNR,
+    # packet_length absent / None / given -- each must give the value of the definition
+    bits = math.log2(M)
+    for idx in (0, len(base) // 2, len(base) - 1):
+        for sc in (float(base[idx]), int(base[idx]), np.float64(base[idx]), np.array(base[idx]), base[idx:idx + 1].copy()):
+            per, ber = float(ref['PER'][idx]), float(ref['BER'][idx])
+            forms = [
+                ('PER(snr, L)', lambda: m.calcTheoreticalPER(sc, L), per),
+                ('PER(snr, packet_length=L)', lambda: m.calcTheoreticalPER(sc, packet_length=L), per),
+                ('PER(SNR=snr, packet_length=L)', lambda: m.calcTheoreticalPER(SNR=sc, packet_length=L), per),
+                ('SE(snr)', lambda: m.calcTheoreticalSpectralEfficiency(sc), bits * (1.0 - ber)),
+                ('SE(snr, None)', lambda: m.calcTheoreticalSpectralEfficiency(sc, None), bits * (1.0 - ber)),
+                ('SE(snr, packet_length=None)', lambda: m.calcTheoreticalSpectralEfficiency(sc, packet_length=None),
+                 bits * (1.0 - ber)),
+                ('SE(snr, L)', lambda: m.calcTheoreticalSpectralEfficiency(sc, L), bits * (1.0 - per)),
+                ('SE(snr, packet_length=L)', lambda: m.calcTheoreticalSpectralEfficiency(sc, packet_length=L),
+                 bits * (1.0 - per)),
+                ('SE(SNR=snr, packet_length=L)', lambda: m.calcTheoreticalSpectralEfficiency(SNR=sc, packet_length=L),
+                 bits * (1.0 - per)),
+                ('SER(SNR=snr)', lambda: m.calcTheoreticalSER(SNR=sc), float(ref['SER'][idx])),
+                ('BER(SNR=snr)', lambda: m.calcTheoreticalBER(SNR=sc), ber),
+            ]
+            for name, f, want in forms:
+                v = np.asarray(f(), dtype=float)
+                if v.size != 1 or not (rel_close(float(v.ravel()[0]), want, 1e-9) or abs(float(v.ravel()[0]) - want) <= 4 * SLACK):
+                    return 'calls:form:%s:%s:%s' % (name, kind, type(sc).__name__), \
+                        'snr=%r L=%r: got %r, definition gives %r' % (float(base[idx]), L, v.tolist(), want)
     return None
 
 
